@@ -1062,7 +1062,11 @@ def xml_enum_check(ctx):
             for e in enum:
                 if e and D.verdict(tag, e) != 0:
                     ctx.fail({"dictionary": D.rel, "tag": tag, "value": e}, "enumerator of the XML dictionary refused")
-            for bad in ("~~", enum[0] + "~", "5" if "5" not in enum else "~5", "9" if "9" not in enum else "~9"):
+            bads = ["~~", enum[0] + "~", "5" if "5" not in enum else "~5", "9" if "9" not in enum else "~9"]
+            if ftype.upper() not in ("MULTIPLEVALUESTRING", "MULTIPLESTRINGVALUE", "MULTIPLECHARVALUE"):
+                # a single-valued field takes ONE enumerator: several of them joined by blanks are outside the enumeration
+                bads += [enum[0] + " " + enum[-1], enum[0] + " " + enum[0], enum[-1] + "  " + enum[0]]
+            for bad in bads:
                 if bad not in enum and D.verdict(tag, bad) == 0:
                     ctx.fail({"dictionary": D.rel, "tag": tag, "value": bad, "enumeration": enum[:12]},
                              "value outside the XML enumeration accepted")
